@@ -296,3 +296,55 @@ func zzH_C16_winHome() {
 	zzSame16(l, []byte{l0, l1, l2})
 	verifReach("home")
 }
+
+
+// W5: the documented kinds of Windows noise mixed in one line — before each payload letter one of: nothing, a padding
+// byte, a CSI sequence (cursor positioning "ESC [ d H" without a line feed included), a line wrap (CR LF, optionally
+// followed by a CSI that is not a cursor positioning), or a re-print of the previous letter (CR LF ESC[d;dH + letter)
+func zzH_C16_winMix() {
+	var stream, want []byte
+	for i := 0; i < verifBound("P"); i++ {
+		c := zzLetter()
+		k := verifNondetRange(0, 4)
+		switch k {
+		case 1:
+			stream = zzPad(stream)
+		case 2:
+			d := verifNondetByte()
+			verifAssume(d >= '0')
+			verifAssume(d <= '9' || d == ';' || d == '?')
+			verifAssume(d <= '?')
+			f := verifNondetByte()
+			verifAssume(zzIsAlpha(f))
+			stream = append(stream, 0x1b, '[', d, f)
+		case 3:
+			stream = append(stream, '\r', '\n')
+			if verifNondetBool() {
+				f := verifNondetByte()
+				verifAssume(zzIsAlpha(f))
+				verifAssume(f != 'H')
+				stream = append(stream, 0x1b, '[', zzDigit(), f)
+			}
+		case 4:
+			if i > 0 {
+				stream = append(stream, '\r', '\n', 0x1b, '[', zzDigit(), ';', zzDigit(), 'H', want[len(want)-1])
+			}
+		}
+		stream = append(stream, c)
+		want = append(want, c)
+	}
+	stream = append(stream, '!')
+	var b *trzszBuffer
+	if verifBound("NOCUT") == 1 {
+		b = newTrzszBuffer()
+		b.addBuffer(stream)
+	} else {
+		b = zzCutFeed(stream)
+	}
+	verifExpectBlock(1)
+	l, err := b.readLineOnWindows(nil)
+	verifExpectBlock(0)
+	verifAssert(err == nil, "error")
+	zzSame16(l, want)
+	verifReach("win-mix")
+}
